@@ -41,6 +41,10 @@ CHECKS = {
          "Exploration: after every step of a generated history each call must return the model's value for its script version and runtime, and per tag the tracked values must be alive exactly while something refers to them; at the end everything must have been dropped exactly once.",
          "Use-after-free of still-mapped JIT memory can go unnoticed (worker isolation catches crashes only); liveness tracked per tag.",
          "DESIGN.md §4 C11"),
+ "C12": ("multi-threaded stress of generated programs (2-8 threads x 50-200 calls on cloned handles, concurrent compile/drop threads) against the single-threaded results and host-call logs, with tracked-value accounting after join; plus rustc accept/reject probes of small embedding programs that try to share !Sync state",
+         "Exploration: for each generated program every concurrent call returned the single-threaded value and log and the tracked-value balance was zero after join; each of nine probe programs is accepted or rejected by rustc as the property requires.",
+         "The OS owns the schedule (sampled interleavings only); the probe list is finite and hand-written.",
+         "DESIGN.md §4 C12"),
  "C13": ("generated module trees with shared name pools and probe functions holding references of every form; independent resolver (model) vs compiled behaviour; in-memory vs on-disk differential; get_function by module path",
          "Exploration: for each generated tree the resolver written from the stated lookup rules predicts the tag every probe returns or that compilation fails; the tree is compiled from FileSpec and from a temp directory and both must agree with the model.",
          "Tree depth <= 3; import aliases distinct per scope; pkg/super only at the start of paths (documented grammar).",
